@@ -229,8 +229,12 @@ func bfsObs(h *HistSys, depth int, deadline time.Time, per func(hist []Op, w *wo
 func c05Systems() []*HistSys {
 	ops := map[string]bool{"create": true, "sched": true, "delete": true, "finish": true, "deliver": true, "resync": true, "scale": true, "apirelease": true, "restart": false}
 	var out []*HistSys
-	for _, c := range histClasses {
+	classes := append(append([]wkClass{}, histClasses...), wkClass{"stsmulti", ""}, wkClass{"stsmulti", "immutable"})
+	for _, c := range classes {
 		out = append(out, &HistSys{Class: c, Cfg: cfgTwoPools(false), NPods: 2, Replicas: 2, Ops: ops})
+		if c.Kind == "stsmulti" {
+			continue // the multi-IP classes are explored from the initial state only
+		}
 		out = append(out, &HistSys{Class: c, Cfg: cfgTwoPools(false), NPods: 2, Replicas: 2, Ops: ops, PrefixName: "allbound",
 			Prefix: []Op{{Kind: "create", A: 0}, {Kind: "sched", A: 0}, {Kind: "create", A: 1}, {Kind: "sched", A: 1}}})
 	}
@@ -238,7 +242,7 @@ func c05Systems() []*HistSys {
 }
 
 func init() {
-	register(&Property{ID: "C05", Level: "fault_enumeration", QuickS: 120, ThoroughS: 1200,
+	register(&Property{ID: "C05", Level: "fault_enumeration", QuickS: 170, ThoroughS: 1200,
 		Assume: append([]string{"single fault (error without effect) or single crash per operation; restart = new plugin over the same API objects, pod events pending at the crash are lost"}, assumeIPAM...),
 		Rule: "for every transition (history, op) of the history BFS (depth in `bounds`) and every index k of an API-server call made by op: re-execute with the k-th call failing (memory/store agreement, " +
 			"restart reconstructs the same tables) and with the process dying right before / right after the k-th call (restart; resync; recovery oracle); one evaluation = one re-execution; " +
@@ -250,7 +254,11 @@ func init() {
 			}
 			var jobs []Job
 			for _, h := range c05Systems() {
-				jobs = append(jobs, c05Job(h, depth, false), c05Job(h, depth, true))
+				d := depth
+				if h.Class.Kind == "stsmulti" {
+					d = depth - 1
+				}
+				jobs = append(jobs, c05Job(h, d, false), c05Job(h, d, true))
 			}
 			return jobs
 		}})
